@@ -346,6 +346,11 @@ func (e *env) foreignTransportMuts(msg int, sig func(out []rhpc.Msg) *types.Sign
 			fc, _ := expected(out)
 			*sig(out) = e.signAs(e.otherKey, fc)
 		}},
+		// the peer plays host completely: its own price table, its own signature on the revision
+		{msg: msg, field: "HostSignature", kind: "foreign-peer-key-signs-own-price-table", apply: func(out []rhpc.Msg) {
+			fc, _ := expected(out)
+			*sig(out) = e.signAs(e.otherKey, fc)
+		}},
 	}
 }
 
@@ -715,7 +720,9 @@ func (e *env) rootsScenario(off, n uint64) *scenario {
 	fcExp, _, errExp := proto4.ReviseForSectorRoots(pre.Revision, e.prices, n)
 	inRange := n != 0 && off <= uint64(len(preRoots)) && n <= uint64(len(preRoots))-off
 	sc.line = func(sent []rhpc.Msg) string {
-		return fmt.Sprintf("roots 1 %s %s %d %d |", e.revWords(pre.Revision), e.priceWords(), off, n) + msgWords(sc.steps, sent, func(i int, m rhpc.Msg) string {
+		// the price table must be the CONTRACT host's (rpc.go: req.Validate(contract.Revision.HostPublicKey, …))
+		pricesOk := b2i(pre.Revision.HostPublicKey.VerifyHash(e.prices.SigHash(), e.prices.Signature))
+		return fmt.Sprintf("roots %d %s %s %d %d |", pricesOk, e.revWords(pre.Revision), e.priceWords(), off, n) + msgWords(sc.steps, sent, func(i int, m rhpc.Msg) string {
 			r := m.Obj.(*proto4.RPCSectorRootsResponse)
 			v := inRange && uint64(len(r.Roots)) == n && safeBool(func() bool {
 				return proto4.VerifySectorRootsProof(r.Proof, r.Roots, numSectors, off, off+n, pre.Revision.FileMerkleRoot)
